@@ -152,7 +152,7 @@ let show_obs te (o : obs) =
       | EInner (p, k, a) -> Printf.sprintf " I%d.%d%s" (int_of_nat p) (int_of_nat k) (show_vals te a)
       | EInnerRet (p, k, a) -> Printf.sprintf " J%d.%d%s" (int_of_nat p) (int_of_nat k) (show_vals te a)
       | ELeave (p, a) -> Printf.sprintf " L%d%s" (int_of_nat p) (show_vals te a))) o.o_log;
-    Buffer.add_string b (if o.o_wf then " ; WF 1" else " ; WF 0");
+    Buffer.add_string b (if not o.o_wf then " ; WF 0" else if o.o_sc then " ; WF 1" else " ; WF 2");
     Buffer.contents b
 
 (* ---------- concurrency scenarios: run the interleaving model (Conc.v) on a round-robin schedule;
